@@ -345,6 +345,13 @@ fn one_case(r: &mut Rng, id: usize, out: &mut String) {
             let s2 = rp("poly", || f.as_polytope().remove_rows(idx.clone()));
             let (s3, _) = rf("view", || f.view().remove_rows(idx.clone()));
             res = vec![s1, s2, s3];
+            if !mal {
+                // the same indices through iterators whose size hint is only an upper bound
+                let (s4, _) = rf("filter_iter", || f.remove_rows((0..m).filter(|i| idx.contains(i))));
+                let s5 = rp("poly_filter_iter", || f.as_polytope().remove_rows((0..m + 3).filter(|i| idx.contains(i))));
+                res.push(s4);
+                res.push(s5);
+            }
             primary = a;
         }
         "remove_zero_rows" | "remove_zero_columns" => {
